@@ -410,14 +410,22 @@ impl Backend {
     }
 
     async fn pull_config(&self) {
-        let mut new_config = self
+        // Not every client implements `workspace/configuration`: those that don't answer the
+        // request with an error. Carry on with the configuration we already have.
+        let mut new_config = match self
             .client
             .configuration(vec![ConfigurationItem {
                 scope_uri: None,
                 section: None,
             }])
             .await
-            .unwrap();
+        {
+            Ok(new_config) => new_config,
+            Err(err) => {
+                warn!("Unable to pull the configuration from the client: {err}");
+                return;
+            }
+        };
 
         if let Some(first) = new_config.pop() {
             self.update_config_from_obj(first).await;
